@@ -31,6 +31,9 @@ def run(ctx, crate):
     # "every terminal width": the row arithmetic audited above presupposes finite row counts, i.e. no division by a zero width
     from ..draw_rules import rule_rows_finite
     rule_rows_finite(ctx, crate)
+    # the audited `write_fmt(..).unwrap()` edges of the renderer presuppose Display impls that fail only when the writer does
+    from .c15 import rule_display_no_own_error
+    rule_display_no_own_error(ctx, crate)
 
 
 def requirements_from(edges):
